@@ -98,26 +98,26 @@ def explore_config(vec, cfg, bound, consumer=('drain',), want=('verdicts', 'live
     viols = []
     outcomes = set()
     label = 'dedicated process, recycle %d, timeout %s, keep %s, consumer %s' % (cfg['recycle'], cfg['timeout'], cfg['keep'], consumer)
-    for choices, res in ex['results']:
+    consumed = None if consumer[0] == 'drain' else consumer[1]
+
+    def judge(res):
         vs = []
-        consumed = None if consumer[0] == 'drain' else consumer[1]
         if 'verdicts' in want and res['ok'] and res['finished']:
-            v2 = vec if consumed is None else vec[:consumed]
-            vs += judge_verdicts(v2, res, cfg['keep'], label)
+            vs += judge_verdicts(vec if consumed is None else vec[:consumed], res, cfg['keep'], label)
         elif 'verdicts' in want and 'liveness' not in want:
             vs.append(viol('verdicts:run-did-not-finish', '%s: the comparison run never finished, so later ids got no verdict (vector %s)' % (label, list(vec)),
                            'one verdict per id', [o['id'] for o in res['out']]))
         if 'liveness' in want:
             vs += judge_liveness(vec, res, cfg, label, consumed)
+        return vs
+    for choices, res in ex['results']:
         outcomes.add(repr(([(o['id'], o['status'], o['playback'], o['dt']) for o in res['out']], res['alive'], res['procs'], res['ok'])))
-        for v in vs:
+        for v in judge(res):
             if not any(x['sig'] == v['sig'] for x in viols):
                 v['schedule'] = choices
                 viols.append(v)
-    if viols:
+    if viols:   # the reported schedule must reproduce its violation
         s2, r2 = vmp.run_equalizer(vec, viols[0]['schedule'], dedicated=True, timeout=cfg['timeout'], recycle=cfg['recycle'], keep=cfg['keep'], consumer=consumer)
-        consumed = None if consumer[0] == 'drain' else consumer[1]
-        again = (judge_verdicts(vec if consumed is None else vec[:consumed], r2, cfg['keep'], label) if r2['ok'] and r2['finished'] else []) + judge_liveness(vec, r2, cfg, label, consumed)
-        if viols[0]['sig'] not in [v['sig'] for v in again]:
+        if viols[0]['sig'] not in [v['sig'] for v in judge(r2)]:
             raise HarnessError('schedule did not reproduce its violation: nondeterminism not owned')
     return ex, viols, outcomes
